@@ -34,6 +34,11 @@ func c17Gen(tp *simcore.Tape, n int, base time.Time, distinctRTD bool) []c17Samp
 		theta *= 100000
 	}
 	jitter := []int64{0, 1000, 1000000, 200000000}[tp.Intn(4, "jitter")]
+	jitter2 := jitter
+	if tp.Bool(1, 2, "asym") {
+		// different jitter in the two directions (a quiet forward and a noisy return path, or the reverse)
+		jitter2 = []int64{0, 1000, 1000000, 200000000}[tp.Intn(4, "jitter2")]
+	}
 	minDelay := tp.Range(0, 50_000_000, "mindelay")
 	seen := map[time.Duration]bool{}
 	var out []c17Sample
@@ -42,7 +47,7 @@ func c17Gen(tp *simcore.Tape, n int, base time.Time, distinctRTD bool) []c17Samp
 		t = t.Add(time.Duration(tp.Range(1, int64(4*time.Second), "gap")))
 		for try := 0; ; try++ {
 			d1 := time.Duration(minDelay + tp.Range(0, jitter, "d1"))
-			d2 := time.Duration(minDelay + tp.Range(0, jitter, "d2"))
+			d2 := time.Duration(minDelay + tp.Range(0, jitter2, "d2"))
 			proc := time.Duration(tp.Range(0, 300_000, "proc"))
 			drift := time.Duration(tp.Range(0, 2000, "wander")) // slow wander of the true offset
 			s := c17Sample{t0: t}
@@ -59,6 +64,50 @@ func c17Gen(tp *simcore.Tape, n int, base time.Time, distinctRTD bool) []c17Samp
 		}
 	}
 	return out
+}
+
+// c17Bounds learns the Ntimed filter's delay bounds the way the algorithm it cites does
+// (P.-H. Kamp's Ntimed, ntp_filter.c): running averages of the two one-way quantities
+// lo = t0-t1 and hi = t3-t2 and of their squares over at most 20 samples, bounds at three
+// standard deviations below the average lo and above the average hi, outliers averaged in
+// with weight 1/n^2. It is written from that description, not from the repository's filter,
+// and only decides the statement's question: does a sample lie within the learned bounds?
+type c17Bounds struct {
+	n                float64
+	alo, ahi, l2, h2 float64
+	since            int
+}
+
+// observe returns whether the sample lies within the bounds learned so far and whether
+// that verdict is clear of floating-point doubt (margin of 2 us to either bound, variance
+// terms well conditioned); it then learns the sample.
+func (m *c17Bounds) observe(s c17Sample) (inBounds, clear bool) {
+	lo := s.t0.Sub(s.t1).Seconds()
+	hi := s.t3.Sub(s.t2).Seconds()
+	if m.n < 20 {
+		m.n++
+	}
+	m.since++
+	var nlo, nhi float64
+	vlo, vhi := m.l2-m.alo*m.alo, m.h2-m.ahi*m.ahi
+	if m.n > 2 {
+		nlo, nhi = math.Sqrt(vlo), math.Sqrt(vhi)
+	}
+	loLim, hiLim := m.alo-3*nlo, m.ahi+3*nhi
+	failLo, failHi := lo < loLim, hi > hiLim
+	inBounds = !failLo && !failHi
+	const margin = 2e-6
+	clear = !math.IsNaN(nlo) && !math.IsNaN(nhi) && math.Abs(lo-loLim) > margin && math.Abs(hi-hiLim) > margin &&
+		math.Abs(m.alo) < 10 && math.Abs(m.ahi) < 10 && (m.n <= 2 || (vlo > 1e-12 && vhi > 1e-12))
+	r := m.n
+	if m.n > 2 && (failLo || failHi) && (m.n > 3 || (failLo && failHi)) {
+		r *= r
+	}
+	m.alo += (lo - m.alo) / r
+	m.ahi += (hi - m.ahi) / r
+	m.l2 += (lo*lo - m.l2) / r
+	m.h2 += (hi*hi - m.h2) / r
+	return
 }
 
 // Reference model of the lucky-packet filter, from the statement: median offset of
@@ -162,10 +211,22 @@ func c17World(t *testing.T, r *simcore.Run) any {
 			return 4 + m*1e9*1e-15*8
 		}
 		since := 0
+		bounds := &c17Bounds{}
 		feed := func(idx int, s c17Sample, fresh measurements.Filter) bool {
 			got := f.Do(s.t0, s.t1, s.t2, s.t3)
 			r.Log("ntimed %d -> %d", idx, got)
 			since++
+			if in, clear := bounds.observe(s); in && clear {
+				if d := math.Abs(float64(got - s.off())); d > rawTol(s) {
+					r.Fail("C17", "ntimed/raw-within-bounds", "sample %d (%d since reset) lies within the learned delay bounds: filter %v, raw offset %v", idx, since, got, s.off())
+					return false
+				}
+				if since > 3 {
+					r.Probe("raw-within-bounds")
+				}
+			} else if !in && clear && since > 3 {
+				r.Probe("outside-bounds")
+			}
 			if since <= 3 {
 				if d := math.Abs(float64(got - s.off())); d > rawTol(s) {
 					r.Fail("C17", "ntimed/raw-first-three", "sample %d (%d since reset): filter %v, raw offset %v", idx, since, got, s.off())
@@ -195,11 +256,13 @@ func c17World(t *testing.T, r *simcore.Run) any {
 			case 0:
 				f.Reset()
 				since = 0
+				bounds = &c17Bounds{}
 				fresh = client.NewNtimedFilter(nil)
 				r.Probe("reset")
 			case 1:
 				clk.StepBy(time.Duration(tp.Range(1, int64(time.Second), "stepby")))
 				since = 0
+				bounds = &c17Bounds{}
 				fresh = client.NewNtimedFilter(nil)
 				r.Probe("epoch-change")
 				r.Fault("clock-step")
